@@ -7,7 +7,7 @@ from harness.impl import gwrun
 
 ID = "C11"
 PROP_FILE = "C11.v"
-TRANSLATORS = ["unicode_tables", "tables"]
+TRANSLATORS = ["unicode_tables", "tables", "persist_ast"]
 RULE = ("every history is run twice on the real gateway, with persistence file p.json and p.pickle, and ends with a clean "
         "stop + start that does a REAL save and load: a third grammar-generated histories, two thirds directed rich states "
         "(0-4 nodes incl. ids 0/255, id-assigned nodes without type, children without values, up to 6 values per child, "
@@ -19,7 +19,18 @@ RULE = ("every history is run twice on the real gateway, with persistence file p
 ASSUMPTIONS = ["a clean stop and restart = stop(), a new gateway object with the same configuration, start_persistence() "
                "(threading.Timer replaced by an inert fake; asyncio flavour: load + one save inline)",
                "the file system behaves (no faults here: C12/C13)"]
-THEOREMS_DOC = {}
+THEOREMS_DOC = {
+    'json_roundtrip': "forall ver_ok t, wf_tree t -> json_load (enc_json t) = Ok (state_dict (load_tree t)): the real decoder applied to the real encoder's output gives EXACTLY the dict of Sensor objects (every instance attribute in __dict__ order, int keys) denoting load_tree t", 'state_dict_faithful': 'read_state (state_dict s) = Some s: the denotation of a state as Python objects is injective',
+    'json_roundtrip_unconditioned_refuted': 'without wf_tree the JSON round trip is false (witness: node id -1)',
+    'json_negative_id_comes_back_as_string': "a node keyed -1 comes back under the STRING key '-1' ('-1'.isdigit() is False)", 'json_negative_value_type_poisons_dict': "one negative value type leaves ALL keys of that values dict strings (even '3')", 'attributes_outside_setter_ranges_are_reset': "battery 500 comes back 0 in both formats; a protocol version rejected by is_version comes back '1.4'", 'pickle_roundtrip': 'forall ver_ok n, attr_ok n -> setstate (getstate (node_attrs n)) = the persisted attributes with new_state={}, queue=deque(), reboot=False, WHATEVER they were before (they are in the pickled state), and it reads back as load_node (proj_node n)',
+    'pickle_roundtrip_unconditioned_refuted': 'without attr_ok (battery 0..100, accepted version) the pickle round trip is false (witness: battery 500)',
+    'formats_agree': 'forall s, wf_tree (proj s) -> JSON save+load and pickle save+load both read back as load_tree (proj s) - the same state - and every loaded node has empty transient state',
+    'hook_objects_complete': 'objs_tree t lists exactly the objects of the document enc_json t, each with its role',
+    'hook_no_misfire': 'wf_tree t -> on every object of enc_json t exactly the intended branch of dict_to_object fires (Sensor / ChildSensor / int keys; including EMPTY children and values dicts, where all(k.isdigit()) is vacuously true)',
+    'hook_no_misfire_unconditioned_refuted': "outside wf_tree a values dict with a negative key takes the 'plain dict' branch", 'hook_corners': "{} takes the int-key branch; {'7': x} comes back {7: x}; any dict with 'sensor_id' becomes a Sensor, with id/type/values a ChildSensor (extra members dropped); {'²': 1} raises ValueError (isdigit but not int()); ARABIC-INDIC '1' and '1' collide", 'decoder_trusts_the_document': "the JSON decoder does not reset transient attributes ('reboot' in a document is restored), raises AttributeError on 'is_smart_sleep_node', and '_battery_level' bypasses the setter: only the ENCODER keeps these out of the file", 'reachable_wf': 'forall orc clock cf ops, cfg_ok cf -> Forall op_ok ops -> wf_tree (orc_version orc) (proj (g_sensors (run ... (gw_init cf) ops)))',
+    'reachable_sens_ok': "the stronger invariant: key = id, ids 0..255, child key = child id, values are strings, battery 0..100, version accepted or '1.4'", 'reachable_roundtrip': 'in every reachable state both formats restore load_tree (proj s) exactly and no transient state comes back',
+    'restart_keeps_wf': 'wf_tree t -> wf_tree (proj (load_tree t)): what a restart installs is again well formed',
+    'model_matches_source': 'the 15 generated AST facts of persistence.py / sensor.py / validation.py equal the shapes the model transcribes (src_* lemmas, reflexivity)'}
 SCOPE = ["tree", "extra"]
 MONITORS = ["c11"]
 
@@ -77,6 +88,9 @@ def run(ctx, res):
             res.nontriv(r["case"]["id"].rsplit("-", 1)[0])
     for r in recs[:2] + recs[-2:]:
         res.sample({"cfg": r["case"]["cfg"], "ops": r["case"]["ops"][:8], "n_ops": len(r["case"]["ops"])})
+    # file-format model (Model/Persist.v, runner tag "Persist") against the real encoder/decoder/pickle hooks
+    from harness.impl import persist_tie
+    persist_tie.run(ctx, res)
 
 
 def other_format(path):
@@ -84,6 +98,10 @@ def other_format(path):
 
 
 def replay(ctx, case):
+    c0 = case["case"] if "case" in case else case
+    if isinstance(c0, dict) and c0.get("tie") == "persist":
+        from harness.impl import persist_tie
+        return persist_tie.replay(ctx, c0)
     c0 = case["case"] if "case" in case else case
     c, root = scenarios_a.relocated(c0, "c11")
     try:
